@@ -1,0 +1,40 @@
+//go:build verif
+
+// Contracts (machine-checked by /verif/bin/govc) against /verif/spec/ids
+// (TS 23.003, TS 24.501).  Comment-only file.
+
+package nasConvert
+
+//@ func PlmnIDToNas
+//@ prop C17 C11
+//@ shape plmnID.Mcc 3
+//@ behavior mnc2
+//@ shape plmnID.Mnc 2
+//@ requires digits: vc.Forall(0, 3, func(i int) bool { return '0' <= plmnID.Mcc[i] && plmnID.Mcc[i] <= '9' }) && vc.Forall(0, 2, func(i int) bool { return '0' <= plmnID.Mnc[i] && plmnID.Mnc[i] <= '9' })
+//@ ensures plmn: len(result) == 3 && vc.Forall(0, 3, func(n int) bool { return result[n] == ids.PLMNOctet(plmnID.Mcc, plmnID.Mnc, n) })
+//@ behavior mnc3
+//@ shape plmnID.Mnc 3
+//@ requires digits: vc.Forall(0, 3, func(i int) bool { return '0' <= plmnID.Mcc[i] && plmnID.Mcc[i] <= '9' }) && vc.Forall(0, 3, func(i int) bool { return '0' <= plmnID.Mnc[i] && plmnID.Mnc[i] <= '9' })
+//@ ensures plmn: len(result) == 3 && vc.Forall(0, 3, func(n int) bool { return result[n] == ids.PLMNOctet(plmnID.Mcc, plmnID.Mnc, n) })
+
+// AMF identifier: region (8 bits) | set (10 bits) | pointer (6 bits), TS 23.003 2.10.1.
+//@ func AmfIdToNas
+//@ prop C17
+//@ shape amfId 6
+//@ requires hex: vc.Forall(0, 6, func(i int) bool { return ids.IsHexDigit(amfId[i]) })
+//@ ensures region: amfRegionId == ids.AMFRegion(ids.AMFID24(amfId))
+//@ ensures set: amfSetId == ids.AMFSet(ids.AMFID24(amfId))
+//@ ensures pointer: amfPointer == ids.AMFPointer(ids.AMFID24(amfId))
+
+// S-NSSAI contents (TS 24.501 9.11.2.8): length 1 = SST; length 4 = SST and SD (3 octets).
+//@ func SnssaiToNas
+//@ prop C17
+//@ behavior sst
+//@ shape snssai.Sd 0
+//@ requires sst: 0 <= snssai.Sst && snssai.Sst <= 255
+//@ ensures sst: len(result) == 2 && result[0] == 1 && int32(result[1]) == snssai.Sst
+//@ behavior sstsd
+//@ shape snssai.Sd 6
+//@ requires sst: 0 <= snssai.Sst && snssai.Sst <= 255
+//@ requires hex: vc.Forall(0, 6, func(i int) bool { return ids.IsHexDigit(snssai.Sd[i]) })
+//@ ensures sstsd: len(result) == 5 && result[0] == 4 && int32(result[1]) == snssai.Sst && vc.Forall(0, 3, func(j int) bool { return result[2+j] == ids.HexOctet(snssai.Sd, j) })
